@@ -14,8 +14,17 @@ except ImportError:  # pragma: no cover
 ANYCHAR = lambda: z3.AllChar(z3.ReSort(z3.StringSort()))
 
 
-def to_z3re(pattern, flags, groups=None):
-    """-> z3 regex; `groups` (optional dict) receives group number -> z3 regex of that group"""
+def digit_class(ascii_only, nd):
+    if ascii_only or not nd:
+        if not ascii_only:
+            raise Unsupported("\\d in a str pattern without re.ASCII (the Unicode digit table is not loaded)")
+        return z3.Range("0", "9")
+    return z3.Union(*[z3.Range(chr(a), chr(b)) for a, b in nd])
+
+
+def to_z3re(pattern, flags, groups=None, nd=None):
+    """-> z3 regex; `groups` (optional dict) receives group number -> z3 regex of that group;
+    nd: code point ranges of category Nd of the interpreter that runs the library (what \\d means without re.ASCII)"""
     if flags & ~(re.ASCII | re.UNICODE | re.DOTALL):
         raise Unsupported(f"regex flags {flags}")
     tree = sre_parse.parse(pattern, flags)
@@ -23,8 +32,8 @@ def to_z3re(pattern, flags, groups=None):
     dotall = bool(flags & re.DOTALL)
 
     def category(av):
-        if av is C.CATEGORY_DIGIT and ascii_only:
-            return z3.Range("0", "9")
+        if av is C.CATEGORY_DIGIT:
+            return digit_class(ascii_only, nd)
         raise Unsupported(f"regex category {av}")
 
     def cls_item(op, av):
@@ -73,3 +82,84 @@ def to_z3re(pattern, flags, groups=None):
             return category(av)
         raise Unsupported(f"regex construct {op}")
     return seq(tree)
+
+
+def flat_items(pattern, flags, nd=None):
+    """A `flat` pattern: a concatenation of single-character items (literal, class, \\d), each taken once, optionally (`?`, greedy)
+    or -- the last item only -- one or more times (`+`, greedy).  -> [(z3 regex of one character, "1" | "?" | "+")].
+    For such a pattern, when no optional item can be confused with what follows it (checked by `alternatives`), the text matched
+    at a given position is unique: the greedy match python's backtracking matcher returns."""
+    if flags & ~(re.ASCII | re.UNICODE):
+        raise Unsupported(f"regex flags {flags}")
+    ascii_only = bool(flags & re.ASCII)
+    tree = sre_parse.parse(pattern, flags)
+
+    def one(op, av):
+        if op is C.LITERAL:
+            return z3.Re(chr(av))
+        if op is C.IN:
+            if av and av[0][0] is C.NEGATE:
+                raise Unsupported("negated class in a flat pattern")
+            parts = []
+            for o, a in av:
+                if o is C.LITERAL:
+                    parts.append(z3.Re(chr(a)))
+                elif o is C.RANGE:
+                    parts.append(z3.Range(chr(a[0]), chr(a[1])))
+                elif o is C.CATEGORY and a is C.CATEGORY_DIGIT:
+                    parts.append(digit_class(ascii_only, nd))
+                else:
+                    raise Unsupported(f"class item {o}")
+            return parts[0] if len(parts) == 1 else z3.Union(*parts)
+        raise Unsupported(f"item {op} in a flat pattern")
+    items = []
+    for op, av in tree:
+        if op is C.MAX_REPEAT:
+            lo, hi, sub = av
+            if len(sub) != 1:
+                raise Unsupported("repeated group in a flat pattern")
+            q = "?" if (lo, hi) == (0, 1) else "+" if (lo == 1 and hi is C.MAXREPEAT) else None
+            if q is None:
+                raise Unsupported(f"quantifier {{{lo},{hi}}} in a flat pattern")
+            items.append((one(*sub[0]), q))
+        else:
+            items.append((one(op, av), "1"))
+    if any(q == "+" for _, q in items[:-1]):
+        raise Unsupported("`+` before the last item of a flat pattern")
+    if tree.state.groups > 1:
+        raise Unsupported("capturing groups in a flat pattern")
+    return items
+
+
+def _disjoint(a, b):
+    c = z3.String("c!disj")
+    s = z3.Solver()
+    s.add(z3.Length(c) == 1, z3.InRe(c, a), z3.InRe(c, b))
+    return s.check() == z3.unsat
+
+
+def alternatives(items):
+    """-> [(head: [char regex], tail: char regex | None)]: the fixed shapes a match can take (one per choice of the optional
+    items), after checking that an optional item cannot be confused with any item that may follow it directly"""
+    for i, (r, q) in enumerate(items):
+        if q != "?":
+            continue
+        for r2, q2 in items[i + 1:]:
+            if not _disjoint(r, r2):
+                raise Unsupported("optional item overlaps what may follow it (match not unique)")
+            if q2 != "?":
+                break
+    alts = [[]]
+    for r, q in items:
+        if q == "1":
+            alts = [a + [r] for a in alts]
+        elif q == "?":
+            alts = [a + [r] for a in alts] + [list(a) for a in alts]
+        else:
+            alts = [a + [("+", r)] for a in alts]
+    out = []
+    for a in alts:
+        tail = a[-1][1] if a and isinstance(a[-1], tuple) else None
+        head = a[:-1] + [tail] if tail is not None else a        # the first character of the tail belongs to the fixed window
+        out.append((head, tail))
+    return out
